@@ -209,6 +209,41 @@ def rule_list_helpers(cx, rid):
         ok = len(rets) == 1 and show(rets[0]["e"]) == "list.data[index]" and len(g_adj) == 1 and show(g_adj[0][0]["e"]) in ("index += (int)list.size", "index += list.size", "index = (index + (int)list.size)") \
             and [(show(c), t) for c, t in g_adj[0][1]] == [("(index < 0)", True)]
         r.check(ok, "get/negative-index-counts-from-the-end", where, f"indexing: adjust {[(show(s_['e']), [(show(c), t) for c, t in g]) for s_, g in g_adj]}, return {[show(x['e']) for x in rets]}")
+    # comprehension over range(): the helper visits exactly the values of Python's range(start, stop, step), in order, and
+    # reports that many elements (abstract interpreter with exact unrolling on a grid of concrete arguments)
+    import itertools
+    from ..cabs import Exec, State
+    from ..num import Iv
+    fr = [f for f in fns.get("__redu_list_from_range", []) if any(t == "Func" for _n, t in f.get("params", []))]
+    if not fr:
+        raise AnalysisError("__redu_list_from_range not found")
+    n_bad = 0
+    for start, stop, step in itertools.product((0, 1, 7, -2, 10), (0, 5, -3, 7, 2), (1, 2, 3, -1, -2, -3)):
+        seen = []
+
+        def on_call(e, st, _seen=seen):
+            if e[0] == "call" and e[2] and (cxx.callee(e) == "func" or (cxx.callee(e) == "operator()" and cxx.show(e[2][0]) == "func")):
+                iv = ex.ev(e[2][-1], st)
+                _seen.append(iv.lo if iv.lo == iv.hi else None)
+
+        ex = Exec(on_call=on_call)
+        ex.unroll = 32
+        st0 = State()
+        for k_, v_ in (("start", start), ("stop", stop), ("step", step)):
+            st0.v[k_] = Iv(v_, v_)
+        outs = ex.run(fr[-1]["body"], [st0])
+        want = list(range(start, stop, step))
+        sizes = {(s_.v.get("result.size").lo, s_.v.get("result.size").hi) for s_ in outs["ret"] + outs["fall"] if s_.v.get("result.size") is not None}
+        good = [int(x) if x is not None else None for x in seen] == want and sizes == {(len(want), len(want))}
+        if good:
+            r.ok(None)
+        else:
+            n_bad += 1
+            if n_bad <= 3:
+                r.fail("from_range/elements=range(start,stop,step)", where, f"__redu_list_from_range({start}, {stop}, {step}) visits {seen} and reports size {sorted(sizes)}; Python's range gives {want}", detail={"start": start, "stop": stop, "step": step})
+            else:
+                r.stat.obligations += 1
+                r.stat.failed += 1
     lens = [f for f in fns.get("__redu_len", []) if any("__redu_list<T>" in (t or "") for _n, t in f.get("params", []))]
     r.check(len(lens) == 1 and len(lens[0]["body"]) == 1 and lens[0]["body"][0]["k"] == "return" and show(lens[0]["body"][0]["e"]) == "value.size", "len/list-size", where, "len(list) must be the element count")
     return r
